@@ -203,7 +203,11 @@ func contractPhase(cr *checkResult, w *symex.World, update bool) {
 	scratch := filepath.Join(outDir(), "scratch", fmt.Sprintf("%s-%d", prop, os.Getpid()))
 	defer os.RemoveAll(scratch)
 	known := loadKnownFindings()
-	outs := symex.Discharge(obls, symex.SolveOpts{TimeoutMs: timeout, Dir: scratch, Parallel: 6, RequireTwo: cr.tier == "thorough",
+	maxRetry := 0
+	if n, err := strconv.Atoi(os.Getenv("VERIF_MAXRETRY")); err == nil && n > 0 {
+		maxRetry = n // (the seeded-change matrix limits the sequential second chances to keep its run time down)
+	}
+	outs := symex.Discharge(obls, symex.SolveOpts{TimeoutMs: timeout, Dir: scratch, Parallel: 6, RequireTwo: cr.tier == "thorough", MaxRetry: maxRetry,
 		ExpectedToFail: func(name string) bool { return matchKnown(known, prop, name) != nil }})
 	baseApprox := map[string]bool{}
 	if b := loadBaseline(prop); b != nil {
